@@ -1,6 +1,7 @@
 import Pearl.Proofs.MaintLemmas
 import Pearl.Props.C01
 import Pearl.Props.C04
+import Pearl.Proofs.AcctLemmas
 /-
 C15: accounting.  The count getters always match the operation history, every operation changes the
 total by exactly the number of records it appended, and blob ids are never reused.
@@ -204,5 +205,272 @@ example : Demo.s2.nextId = 3 ∧ Demo.s2.maxId = 2 ∧ (Demo.s2.apply .replaceAc
 -- a later blob with a fresh id, and an old id still naming the continuation of the old blob
 example : ((Demo.s1.run [.replaceActive, .write 9 1 none ⟨1, 1⟩]).blobs.map (·.id)) = [0, 1, 2] ∧
     Demo.s1.blobs.map (·.id) = [0, 1] := by decide
+
+/-! ### the file-level part: the getters against a listing of the directory (`Pearl/Model/Acct.lean`)
+
+`Acct.State` = the L2 `Store` + the `File::size()` / `findex.file_size()` counters + `corrupted_blobs` + the work
+directory (blob files, index files) and its `corrupted` sub-directory.  `Acct.step` covers write (with rotation),
+delete (also into closed blobs), close / create / restore of the active blob, `force_update_active_blob`, dump
+passes, and restart (normal / lazy) with blob files found unreadable, under both settings of
+`ignore_corrupted`. -/
+
+/-- the four identities (plus the structural invariant they follow from).
+    `blobs_count`: under `ignore_corrupted` the unreadable blob files stay in the work directory without being
+    held, so the identity carries the term `s.ignored.length` (see `blobs_count_ne_files_when_ignoring`);
+    `disk_used`: over the blobs the storage holds, blob file + index file if one is on disk. -/
+structure AcctInv (c : Acct.Cfg) (s : Acct.State) : Prop where
+  struct : Acct.Inv c s
+  blobs_count : Acct.blobsCount s + s.ignored.length = Acct.dirBlobFiles s
+  next_blob_id : Acct.nextBlobId s = Acct.dirNextId s
+  corrupted_blobs_count : Acct.corruptedBlobsCount s = Acct.dirCorrupted s
+  disk_used : Acct.diskUsed s = Acct.dirDiskUsed s
+
+theorem AcctInv.of_inv {c : Acct.Cfg} {s : Acct.State} (h : Acct.Inv c s) : AcctInv c s :=
+  ⟨h, h.blobsCount_eq, h.nextBlobId_eq, h.corrupted_eq, h.diskUsed_eq⟩
+
+/-- one step -/
+theorem acct_inv_step {c : Acct.Cfg} {s : Acct.State} (h : AcctInv c s) (op : Acct.AOp) :
+    AcctInv c (Acct.step c s op) :=
+  .of_inv (Acct.inv_step h.struct op)
+
+/-- every history from the empty directory, no bound: `blobs_count`, `next_blob_id`, `corrupted_blobs_count`
+    and `disk_used` are what a listing of the directory shows — before and after restarts and quarantines -/
+theorem acct_inv_run (c : Acct.Cfg) (allowDup : Bool) (ops : List Acct.AOp) :
+    AcctInv c (Acct.run c allowDup ops) :=
+  .of_inv (Acct.inv_run c allowDup ops)
+
+/-- without `ignore_corrupted`: `blobs_count` = number of blob files in the work directory, and `disk_used` =
+    total length of the blob files and index files of the work directory -/
+theorem acct_run_not_ignoring (c : Acct.Cfg) (allowDup : Bool) (ops : List Acct.AOp)
+    (hops : ∀ op ∈ ops, Acct.NotIgnoring op) :
+    let s := Acct.run c allowDup ops
+    Acct.blobsCount s = Acct.dirBlobFiles s ∧ Acct.diskUsed s = Acct.dirTotal s := by
+  intro s
+  have hi : s.ignored = [] := Acct.runFrom_ignored_nil c rfl ops hops
+  have h := Acct.inv_run c allowDup ops
+  refine ⟨?_, h.diskUsed_total hi⟩
+  have := h.blobsCount_eq
+  rw [hi] at this
+  exact this
+
+/-- `disk_used` in terms of the history: per held blob, the blob header plus the records appended to it
+    (deletion markers included) plus its index file, if one is on disk -/
+theorem acct_disk_used_history (c : Acct.Cfg) (allowDup : Bool) (ops : List Acct.AOp) :
+    let s := Acct.run c allowDup ops
+    Acct.diskUsed s =
+      (s.store.blobs.map (fun b => Fs.contentLen c.klen b.recs + Acct.idxFileLen s.dir b.id)).sum :=
+  (Acct.inv_run c allowDup ops).diskUsed_history
+
+/-- a held blob whose index is on disk: its share of `disk_used` is a function of its records — blob header +
+    records + `idxLen` of the records — and its index file validates against the blob file (so the next start
+    keeps it); an empty blob takes the blob header only -/
+theorem acct_blob_disk_used (c : Acct.Cfg) (allowDup : Bool) (ops : List Acct.AOp) :
+    let s := Acct.run c allowDup ops
+    ∀ b ∈ s.store.blobs,
+      (b.onDisk = true → Acct.blobDiskUsed s b = Fs.contentLen c.klen b.recs + c.idxLen b.recs ∧
+        Acct.idxValid s.dir b.id = true) ∧
+      (b.recs = [] → Acct.blobDiskUsed s b = blobHeaderSize) :=
+  fun _ hb => ⟨fun ho => (Acct.inv_run c allowDup ops).blob_onDisk hb ho,
+    fun he => (Acct.inv_run c allowDup ops).blob_empty hb he⟩
+
+/-- right after a lazy start (whatever was damaged, whatever `ignore_corrupted`), `disk_used` is a function of
+    the history alone: per held blob the header and the records, plus `idxLen` of the records if there are any -/
+theorem disk_used_after_lazy_restart (c : Acct.Cfg) (allowDup : Bool) (ops : List Acct.AOp) (ignore : Bool)
+    (bad : List Nat) :
+    let s := Acct.run c allowDup (ops ++ [.restart true ignore bad])
+    Acct.diskUsed s = (s.store.blobs.map (fun b =>
+      Fs.contentLen c.klen b.recs + if b.recs.isEmpty then 0 else c.idxLen b.recs)).sum := by
+  intro s
+  have hs : Acct.run c allowDup (ops ++ [.restart true ignore bad]) =
+      Acct.restart c (Acct.run c allowDup ops) true ignore bad := by
+    simp [Acct.run, Acct.runFrom, List.foldl_append, Acct.step]
+  exact (Acct.inv_run c allowDup _).diskUsed_closed_form
+    (by rw [hs]; exact Acct.restart_lazy_onDisk c _ ignore bad)
+
+/-! #### the record counters of an `Acct` state are those of L2 -/
+
+/-- the `store` component of every step but `restart` is the L2 store after the L2 operations `Acct.l2 s op` -/
+theorem acct_step_store (c : Acct.Cfg) (s : Acct.State) (op : Acct.AOp)
+    (hr : ∀ lazy ignore bad, op ≠ .restart lazy ignore bad) :
+    (Acct.step c s op).store = s.store.run (Acct.l2 s op) :=
+  Acct.step_store c s op hr
+
+/-- `restart`: the blobs found unreadable leave the history (quarantined or skipped), nothing else changes
+    except that a new empty blob may appear -/
+theorem acct_restart_history {c : Acct.Cfg} {s : Acct.State} (h : AcctInv c s) (lazy ignore : Bool)
+    (bad : List Nat) :
+    ∃ e : History, (Acct.restart c s lazy ignore bad).store.history =
+        s.store.history.filter (fun p => !(Acct.unreadable s bad).contains p.1) ++ e ∧
+      (∀ p ∈ e, p.2 = []) ∧ e.length ≤ 1 :=
+  Acct.restart_history h.struct lazy ignore bad
+
+/-- a history without damage is an L2 history: `recordsCount_eq_history`, `recordsCountDetailed_eq`,
+    `run_count`, `run_nextId_tight`, `ids_never_reused_in_run` … speak about its `store` -/
+theorem acct_run_store (c : Acct.Cfg) (allowDup : Bool) (ops : List Acct.AOp)
+    (hops : ∀ op ∈ ops, Acct.NoDamage op) :
+    (Acct.run c allowDup ops).store =
+      (Store.init allowDup).run (Acct.l2run c (Acct.init allowDup) ops) :=
+  (Acct.run_clean c allowDup ops hops).1
+
+theorem acct_run_count (c : Acct.Cfg) (allowDup : Bool) (ops : List Acct.AOp)
+    (hops : ∀ op ∈ ops, Acct.NoDamage op) :
+    (Acct.run c allowDup ops).store.recordsCount =
+      (Store.init allowDup).storedWrites (Acct.l2run c (Acct.init allowDup) ops) +
+        (Store.init allowDup).deleteMarks (Acct.l2run c (Acct.init allowDup) ops) := by
+  rw [acct_run_store c allowDup ops hops]; exact run_count allowDup _
+
+/-- with or without damage the per-blob counters are the per-blob lengths of the history of the state -/
+theorem acct_counts_eq_history (c : Acct.Cfg) (allowDup : Bool) (ops : List Acct.AOp) :
+    let s := Acct.run c allowDup ops
+    s.store.recordsCount = Spec.count s.store.history ∧
+      s.store.recordsCountDetailed = s.store.history.map (·.2.length) ∧
+      s.store.blobsCount = s.store.history.length :=
+  ⟨recordsCount_eq_history _, recordsCountDetailed_eq _, blobsCount_eq _⟩
+
+/-! #### where the code does not give the literal identity -/
+
+/-- `ignore_corrupted = false`: an unreadable blob file is moved to `corrupted` and counted, and its index
+    file is REMOVED (`remove_index_by_blob_path`) — no index file is left behind -/
+theorem acct_restart_quarantines {c : Acct.Cfg} {s : Acct.State} (h : AcctInv c s) (lazy : Bool)
+    (bad : List Nat) :
+    let r := Acct.restart c s lazy false bad
+    (∀ i ∈ Acct.unreadable s bad,
+        i ∈ r.dir.corrupted ∧ i ∉ Acct.keys r.dir.blobs ∧ Acct.get r.dir.idx i = none) ∧
+      r.ignored = [] ∧
+      Acct.corruptedBlobsCount r = Acct.corruptedBlobsCount s + (Acct.unreadable s bad).length :=
+  Acct.restart_quarantines h.struct lazy bad
+
+/-- `ignore_corrupted = true`: an unreadable blob file stays where it is, is not held and not counted, and
+    its id stays reserved -/
+theorem acct_restart_ignores {c : Acct.Cfg} {s : Acct.State} (h : AcctInv c s) (lazy : Bool)
+    (bad : List Nat) :
+    let r := Acct.restart c s lazy true bad
+    (∀ i ∈ Acct.unreadable s bad,
+        i ∈ Acct.keys r.dir.blobs ∧ (∀ b ∈ r.store.blobs, b.id ≠ i) ∧ i < Acct.nextBlobId r) ∧
+      r.ignored = Acct.unreadable s bad ∧ r.dir.corrupted = s.dir.corrupted ∧
+      Acct.corruptedBlobsCount r = Acct.corruptedBlobsCount s ∧
+      Acct.blobsCount r + (Acct.unreadable s bad).length = Acct.dirBlobFiles r :=
+  Acct.restart_ignores h.struct lazy bad
+
+/-- an index file whose blob is not held (were one left behind; or the index file of a skipped blob, which
+    does stay) changes none of the four getters and none of the four listings … -/
+theorem acct_orphan_index_irrelevant (s : Acct.State) (i : Nat) (f : Acct.IdxFile)
+    (hn : ∀ b ∈ s.store.blobs, b.id ≠ i) : Acct.report (Acct.addIdx s i f) = Acct.report s :=
+  Acct.orphan_idx_irrelevant s i f hn
+
+/-- … and no later blob can pick it up: every index file has an id below `next_blob_id` -/
+theorem acct_index_ids_reserved (c : Acct.Cfg) (allowDup : Bool) (ops : List Acct.AOp) :
+    let s := Acct.run c allowDup ops
+    ∀ i ∈ Acct.keys s.dir.idx, i < Acct.nextBlobId s :=
+  (Acct.inv_run c allowDup ops).idx_below
+
+namespace Acct.Demo
+
+def cfg : Acct.Cfg := { klen := 4, idxLen := fun rs => 100 + 10 * rs.length }
+def w (k ts : Nat) : Acct.AOp := .write k ts none ⟨3, 7⟩ false false
+
+/-- two blobs, both closed; a delete into the closed blob 0 (key 1 is live there); blob 1 restored as active
+    and written to -/
+def ops : List Acct.AOp :=
+  [w 1 1, .closeActive, w 2 2, .closeActive, .delete 1 5 none true, .restoreActive, w 4 4]
+
+end Acct.Demo
+
+/-- the literal `blobs_count` identity FAILS under `ignore_corrupted`: 1 blob held, 2 blob files -/
+theorem blobs_count_ne_files_when_ignoring :
+    let s := Acct.run Acct.Demo.cfg true (Acct.Demo.ops ++ [.restart false true [0]])
+    Acct.blobsCount s = 1 ∧ Acct.dirBlobFiles s = 2 ∧ s.ignored = [0] ∧
+      -- the skipped blob and its (stale) index file are in the directory but in no counter
+      Acct.diskUsed s = 284 ∧ Acct.dirTotal s = 555 ∧ Acct.get s.dir.idx 0 = some ⟨110, 92⟩ := by decide
+
+/-- defect E6 (fixed in /repo 2401d8b): with `IndexStruct::disk_used` = 0 for an index held in memory,
+    `disk_used` misses the index file that stays on disk — after a restart (the active blob's index file was
+    written by `close`), and after a delete into a closed blob (its index is loaded; the stale file stays until
+    the next dump).  The fixed getter agrees with the directory on both. -/
+theorem disk_used_before_fix_wrong :
+    (let s := Acct.run Acct.Demo.cfg true [Acct.Demo.w 1 1, .restart false false []]
+     Acct.diskUsedOld s = 92 ∧ Acct.dirDiskUsed s = 202 ∧ Acct.diskUsed s = 202) ∧
+    (let s := Acct.run Acct.Demo.cfg true [Acct.Demo.w 1 1, .closeActive, .settle, .delete 1 5 none true]
+     Acct.diskUsedOld s = 161 ∧ Acct.dirDiskUsed s = 271 ∧ Acct.diskUsed s = 271) := by decide
+
+/-! #### non-vacuity of the file-level theorems -/
+
+-- delete into a closed blob + restore + write: (getter, listing) for blobs_count, next_blob_id, corrupted, disk_used
+example : Acct.report (Acct.run Acct.Demo.cfg true Acct.Demo.ops) = [(2, 2), (2, 2), (0, 0), (545, 545)] := by
+  decide
+-- … both index files are stale (written for 92 bytes; the blob files have 161 and 164) and still counted;
+-- the pre-fix getter misses both
+example :
+    let s := Acct.run Acct.Demo.cfg true Acct.Demo.ops
+    s.dir.idx = [(0, ⟨110, 92⟩), (1, ⟨110, 92⟩)] ∧ s.dir.blobs = [(0, 161), (1, 164)] ∧
+      Acct.diskUsedOld s = 325 := by decide
+-- restart: the closed blob gets a fresh index file, so does the active one (`close`), whose index is in memory
+example :
+    let s := Acct.run Acct.Demo.cfg true (Acct.Demo.ops ++ [.restart false false []])
+    Acct.report s = [(2, 2), (2, 2), (0, 0), (565, 565)] ∧
+      s.dir.idx = [(1, ⟨120, 164⟩), (0, ⟨120, 161⟩)] ∧ Acct.diskUsedOld s = 445 := by decide
+-- quarantine (`ignore_corrupted = false`): blob 0 moved, its index file removed, counted; its id stays reserved
+example :
+    let s := Acct.run Acct.Demo.cfg true (Acct.Demo.ops ++ [.restart false false [0]])
+    Acct.report s = [(1, 1), (2, 2), (1, 1), (284, 284)] ∧ s.dir.corrupted = [0] ∧
+      Acct.keys s.dir.idx = [1] ∧ Acct.diskUsed s = Acct.dirTotal s := by decide
+-- skipped (`ignore_corrupted = true`), then quarantined by the next start without the flag; a lazy start of a
+-- directory where every blob is unreadable holds nothing, and the start after that runs `init_new` and
+-- creates blob 2, not blob 0
+example :
+    let s := Acct.run Acct.Demo.cfg true
+      (Acct.Demo.ops ++ [.restart false true [0], .restart true false [1], .restart true false []])
+    Acct.report s = [(1, 1), (3, 3), (2, 2), (20, 20)] ∧ s.dir.corrupted = [0, 1] ∧
+      s.dir.blobs = [(2, 20)] ∧ s.store.blobs.map (·.id) = [2] := by decide
+-- after a lazy start `disk_used` is the closed form: 2 blobs of 2 records, index files of 120 bytes
+example :
+    let s := Acct.run Acct.Demo.cfg true (Acct.Demo.ops ++ [.restart true false []])
+    Acct.diskUsed s = 565 ∧ s.store.blobs.map (fun b => (Fs.contentLen 4 b.recs, b.recs.length, b.onDisk)) =
+      [(161, 2, true), (164, 2, true)] := by decide
+-- rotation and `force_update_active_blob`
+example : Acct.report (Acct.run Acct.Demo.cfg true
+      (Acct.Demo.ops ++ [.write 9 9 none ⟨1, 1⟩ true true, .force true, Acct.Demo.w 5 5])) =
+    [(4, 4), (4, 4), (0, 0), (757, 757)] := by decide
+-- `acct_inv_run` / `acct_restart_quarantines` / `acct_restart_ignores` instantiated; their `∀ i ∈ unreadable …` is
+-- not vacuous here
+example : AcctInv Acct.Demo.cfg
+    (Acct.run Acct.Demo.cfg true (Acct.Demo.ops ++ [.restart false true [0], .restart true false [1]])) :=
+  acct_inv_run _ _ _
+example : Acct.unreadable (Acct.run Acct.Demo.cfg true Acct.Demo.ops) [0, 7] = [0] ∧
+    Acct.unreadable (Acct.run Acct.Demo.cfg true (Acct.Demo.ops ++ [.restart false true [0]])) [1] = [0, 1] := by
+  decide
+example :
+    let r := Acct.restart Acct.Demo.cfg (Acct.run Acct.Demo.cfg true Acct.Demo.ops) false false [0, 7]
+    Acct.corruptedBlobsCount r = 0 + 1 ∧ Acct.get r.dir.idx 0 = none :=
+  let h := acct_restart_quarantines (acct_inv_run Acct.Demo.cfg true Acct.Demo.ops) false [0, 7]
+  ⟨h.2.2, (h.1 0 (by decide)).2.2⟩
+-- the hypotheses of `acct_run_not_ignoring` / `acct_run_store` are satisfiable with every kind of operation
+example : ∀ op ∈ Acct.Demo.ops ++ [.force true, .settle, .createActive, .restart true false [1]],
+    Acct.NotIgnoring op := by decide
+example : ∀ op ∈ Acct.Demo.ops ++ [.force true, .settle, .createActive, .restart true true []],
+    Acct.NoDamage op := by decide
+example : Acct.l2run Acct.Demo.cfg (Acct.init true) [Acct.Demo.w 1 1, .closeActive, .restart false false []] =
+    [.write 1 1 none ⟨3, 7⟩, .closeActive, .settle, .restart false] := rfl
+-- an orphan index file: in the directory, in no counter
+example :
+    let s := Acct.run Acct.Demo.cfg true Acct.Demo.ops
+    Acct.report (Acct.addIdx s 7 ⟨55, 0⟩) = Acct.report s ∧
+      Acct.dirTotal (Acct.addIdx s 7 ⟨55, 0⟩) = Acct.dirTotal s + 55 := by decide
+
+/-
+NOT YET PROVED (C15, file part):
+* the link between `Acct.step` and the real file operations is by construction of the model from the sources
+  listed in `Pearl/Model/Acct.lean` (the event-level model `Pearl/Model/Fs.lean` covers the same operations and is
+  tied to the implementation by the trace correspondence check; `Acct` is not yet projected onto it);
+  `idxLen` (length of an index file as a function of the records) is a parameter, not derived from the
+  B+tree serializer of C09;
+* `disk_used` as a function of the history alone is proved where every non-empty held blob has its index on
+  disk (`Acct.Inv.diskUsed_closed_form`, `disk_used_after_lazy_restart`); in between, the index-file term is the
+  length of the file found in the directory (`acct_disk_used_history`), which `Acct.BlobOK.snap` ties to a
+  prefix of the records (the records at the last dump) without naming that prefix in the statement;
+* errors of `Blob::from_file` for which `should_save_corrupted_blob` is false make `init` fail and are outside
+  the model; so are crashes (torn files) between the operations — `restart` is `close` + `init`;
+* `fsync`, memory accounting (`index_memory`) and the bloom-filter getters are not covered.
+-/
 
 end Pearl
